@@ -534,6 +534,9 @@ func IfInt(x *Term) *Term  { return ifAcc("iint", 2, SInt, x) }
 func IfBool(x *Term) *Term { return ifAcc("ibool", 3, SBool, x) }
 func IfStr(x *Term) *Term  { return ifAcc("istr", 4, SStr, x) }
 
+// Allocd: the object containing x was allocated no later than time now
+func Allocd(now, x *Term) *Term { return Le(App("birth", SInt, App("rroot", SInt, x)), now) }
+
 func El(arr, idx *Term) *Term { return mk("el", SInt, arr, idx) }
 
 // substitution (used for pure spec functions and quantifier instantiation)
